@@ -366,17 +366,30 @@ pub fn explorer_worker(args: &[String]) -> i32 {
     let seed: u64 = args[0].parse().unwrap();
     let mut rng = Rng::new(seed);
     let (model, reach) = gen_model(&mut rng, 16);
-    let port = match std::net::TcpListener::bind(("127.0.0.1", 0)).and_then(|l| l.local_addr()) {
+    // A port derived from the pid, below the ephemeral range: the kernel never hands it to a
+    // bind(0) of another process, and concurrently running workers have different pids. (A port
+    // probed with bind(0) and released is now and then grabbed by another scenario before serve()
+    // binds it - the client then talks to a foreign server, and a foreign client to ours.)
+    let own = 12_000 + (std::process::id() % 20_000) as u16;
+    let port = match std::net::TcpListener::bind(("127.0.0.1", own)).and_then(|l| l.local_addr()) {
         Ok(a) => a.port(),
-        Err(_) => {
-            println!("{}", json!({"error": "no free port"}));
-            return 0;
-        }
+        Err(_) => match std::net::TcpListener::bind(("127.0.0.1", 0)).and_then(|l| l.local_addr()) {
+            Ok(a) => a.port(),
+            Err(_) => {
+                println!("{}", json!({"error": "no free port"}));
+                return 0;
+            }
+        },
     };
     let threads = *rng.pick(&[1usize, 2]);
     let m2 = model.clone();
+    // `serve` blocks for as long as it serves; it only returns when it could not (the port,
+    // probed free above and released, was taken by a concurrently running scenario in between).
+    // Whoever answers on that port then is not our server, and nothing it says is judged.
+    static SERVE_RETURNED: std::sync::atomic::AtomicBool = std::sync::atomic::AtomicBool::new(false);
     std::thread::spawn(move || {
-        let _ = m2.checker().threads(threads).serve(("127.0.0.1", port));
+        let _ = crate::ctx::guarded(|| m2.checker().threads(threads).serve(("127.0.0.1", port)));
+        SERVE_RETURNED.store(true, std::sync::atomic::Ordering::SeqCst);
     });
     // wait for the server
     let t = Instant::now();
@@ -541,6 +554,10 @@ pub fn explorer_worker(args: &[String]) -> i32 {
     }
     match fin {
         None => {
+            if SERVE_RETURNED.load(std::sync::atomic::Ordering::SeqCst) {
+                println!("{}", json!({"error": "serve() returned: the port was taken by another process; the answers came from a foreign server"}));
+                return 0;
+            }
             println!("{}", json!({"inconclusive": "checker not done 20 s after runtocompletion", "violations": violations, "stats": stats}));
             return 0;
         }
@@ -568,6 +585,10 @@ pub fn explorer_worker(args: &[String]) -> i32 {
                 }
             }
         }
+    }
+    if SERVE_RETURNED.load(std::sync::atomic::Ordering::SeqCst) {
+        println!("{}", json!({"error": "serve() returned: the port was taken by another process; the answers came from a foreign server"}));
+        return 0;
     }
     println!("{}", json!({"violations": violations, "stats": stats, "model": model.summary(), "threads": threads}));
     0
